@@ -20,6 +20,7 @@ CONTRACT_MODULES = [
     "contracts.storage",
     "contracts.p2p_rdac",
     "contracts.tracker",
+    "contracts.hytera",
 ]
 
 TRUSTED_BASE = [
@@ -123,6 +124,13 @@ PROPS = {
         level_note="Bound: counters below 512 in the pre-state (Python ints are unbounded; the code adds small constants and tests equality only); at most 2 collected blocks besides the header; payload flags the tracker never reads are literal (FewFlags); quick tier: 4 of 5 pre-state families, 4 of 7 last-voice labels, literal block contents where no data block closes the transmission. secrets.token_bytes is replaced by a ghost that never repeats a value (assumed contract of the OS random source). BPTC / trellis / CRC callees by contract (C02, C10, C05).",
         explanation="contract Timeslot.process_burst (covers Terminal.process_incoming_burst, Transmission.*, WithObservers fan-out, Timeslot.get_rx_sequence)",
         assumptions=["secrets.token_bytes(4) never returns a value it returned before (holds with probability 1 - n*2^-32)"],
+    ),
+    "C12": dict(
+        level_text="Per-function contracts, proved for all field values per literal payload length: every implemented RRS (5), LP (2), TMP (8, with / without option field) and RCP (17) opcode built from symbolic in-range fields serialises to service octet | reliable flag, the opcode octets, a length field equal to the payload length in the protocol's endianness (RCP little, others big), the checksum of exactly opcode..payload, 0x03, len(p) = number of octets; HDAP.from_bytes gives equal fields and the same octets again. HRNP: header octets, length field = number of octets, checksum field = checksum of header + payload, parse back equal, checksum verifies - for nested real messages and for ANY nested message of 7 / 8 / 60 octets (T: up to 1000). HSTRP: header, type octet, 16-bit sn, option TLV chain with continuation bits for 0..3 options, nested frame, parse back equal. The two checksum loops are proved separately by loop cutting against independent arithmetic definitions (HDAP: c + sum = 0x32 mod 256 with an 8-bit ripple-carry spec; HRNP: 0xFFFF - (sum reduced modulo 65535), the carry folding `while` on an arbitrary sum in the reachable interval, by z3 integer arithmetic) and enter the frame contracts as stubs whose value is tied to its argument by a ghost record.",
+        level_note="Bounded (native enumeration, never counted as proved): GPS text block (float formatting, strftime) on the grid the fixed-width fields can represent - one factor at a time plus 60 (T: 3000) seeded combinations - each also nested in an LP report frame; str -> UTF-16-LE text (8 seeded texts incl. CJK, surrogate pairs, 200 characters) with HRNP nesting. Literal lengths: text / short data 0, 6 (T: 0..300), option data none / 0 / 3 (T: ..64) octets. Precondition of the HSTRP contract: the option flag is set exactly when the option list is not empty (a set flag with an empty list has no representation; RRSDatagramProtocol.rrs_confirm builds such a frame - noted in DESIGN.md, outside the listed properties).",
+        explanation="contracts HDAP.as_bytes, HDAP.get_hdap_checksum, HRNP.as_bytes, HRNP.verify_checksum, HSTRP.as_bytes; bounded: GPSData.as_bytes, TextMessageProtocol.text_as_str",
+        bounded_parts=["GPSData.as_bytes / from_bytes: literal values on the representable grid", "TextMessageProtocol text given as str: 8 seeded texts"],
+        assumptions=["an HSTRP option flag is set exactly when the option list is not empty (in-range precondition)"],
     ),
     "C18": dict(
         level_text="Inductive proof over datagram histories: ONE datagram (registration / DMR start-up / RDAC start-up / ping / ack / unknown command / truncated command / garbage, literal prefixes with symbolic filler octets) from one of three peers, delivered to the P2P handler over a storage pre-state in which each peer is absent / present-unregistered / present-registered: acceptance, redirect and ping answers only for a source registered in the pre-state and only to its stored outbound address or the requester; exactly the single-byte reject to the requester otherwise; only a registration creates or registers; other peers' records untouched. RDAC: one datagram (1-byte reset / the expected response with symbolic body / an unexpected response / garbage) for every step 0..14: the step advances only on the expected response, a reset restarts (step 1, one STEP0 request to that peer), another peer's step never changes, completion callback exactly on 13 -> 14 with that peer's record id.",
